@@ -37,6 +37,10 @@ type Link struct {
 	AltDir string
 	Alter  func(off int, b byte) (out []byte) // maps the byte at absolute offset off to 0..n bytes
 
+	// StallIsCut: when both stations are blocked reading with nothing in flight (a damaged stream can leave the
+	// receiver waiting for bytes that never come), the link is declared dead, as a radio link's idle timeout would.
+	StallIsCut bool
+
 	Obs Observer
 }
 
@@ -234,6 +238,10 @@ func (e *End) Read(p []byte) (int, error) {
 			if !e.inRead {
 				e.inRead = true
 				l.cond.Broadcast()
+			}
+			if pe := l.end[e.peer]; l.StallIsCut && pe.inRead && len(l.dir[e.peer].buf) == 0 && !pe.done {
+				l.doCut()
+				continue
 			}
 		}
 		if !e.rdeadline.IsZero() && timer == nil {
